@@ -484,7 +484,9 @@ def gen_C14(tier, seed):
             final_id, final_seq = ('SECOND-ID' if i % 2 == 0 else 'FIRST-ID'), (7 if i >= 1 else 1)
             first = fid == 1
             lf = p.lf(fid, lf=fid, fh_id='FIRST-ID' if first else final_id, fh_seq=1 if first else final_seq)
-            p.origin(lf, name='O', **({'file_id': S('FIRST-ID' if first or i != 3 else final_id)} if i == 3 else {}))
+            o = p.origin(lf, name='O')
+            if i == 3:          # a FILE-ID the user assigned (add_origin has no keyword for it)
+                p.set(o, 'file_id', S('FIRST-ID' if first else final_id))
             c = p.channel(lf, 'CH', data=np.arange(3, dtype='float64'))
             p.frame(lf, 'FR', [c])
             if first:
